@@ -233,6 +233,9 @@ class FuncAnalysis:
             for v in srcs:
                 for x in ast.walk(v):
                     if isinstance(x, ast.Name) and isinstance(x.ctx, ast.Load) and x.id != name:
+                        par = getattr(x, "_parent", None)
+                        if isinstance(par, ast.Attribute) and par.attr in ("shape", "dtype", "size", "ndim", "n_infinite", "name", "nnz"):
+                            continue  # metadata of x, not x
                         if x.id in self.params:
                             out.add(x.id)
                         elif x.id in self.locals:
@@ -315,6 +318,8 @@ class FuncAnalysis:
         if b is not None and st == ALIAS and b not in self.params:
             org = self.origins(b)
             if org and org <= set(self.params) - self.captured:
+                for extra_b in sorted(org)[1:]:
+                    self.sinks.append((node, txt, extra_b, st, kind))
                 b = sorted(org)[0]
         self.sinks.append((node, txt, b, st, kind))
 
@@ -500,11 +505,14 @@ class Analyser:
         self.calls.append((caller, call, dict(env)))
 
 
-def rule_no_inplace_mutation(rep: Report, repo: Repo):
+def rule_no_inplace_mutation(rep: Report, repo: Repo, modules=None):
+    """`modules`: report only on functions of these modules (the analysis itself is always package-wide)."""
     an = Analyser(repo)
     n_sinks = 0
     summaries = {}  # func name -> set(param index)
     for fa in an.funcs:
+        if modules is not None and fa.mod not in modules:
+            continue
         for node, txt, base, st, kind in fa.sinks:
             n_sinks += 1
             where = repo.loc(fa.mod, node)
@@ -552,7 +560,7 @@ def rule_no_inplace_mutation(rep: Report, repo: Repo):
             rep.fail(RULE, f"{fa.mod}::{fa.q} {kind} on `{txt}` may mutate caller-owned or cached data in place",
                      f"`{base}` may alias an input, a cached series element or a returned value on some path "
                      "(use a non-mutating form or copy first)", where)
-    rep.floor(RULE, "in-place-mutation sinks inspected", n_sinks, 40)
+    rep.floor(RULE, "in-place-mutation sinks inspected", n_sinks, 40 if modules is None else 3)
     rep.count("E4.sinks", n_sinks)
     # call sites of parameter-mutating functions must pass FRESH
     n_calls = 0
@@ -581,8 +589,32 @@ def rule_no_inplace_mutation(rep: Report, repo: Repo):
                     rep.fail(RULE, f"{caller.mod}::{caller.q} passes `{norm(arg)[:50]}` to {fname} which mutates parameter `{pname}` in place",
                              f"the argument is not provably a private copy: {st}", repo.loc(caller.mod, call))
     rep.count("E4.param_mutation_call_sites", n_calls)
+    # a function whose callers are outside the package must not write into its arguments at all: the slots of a scipy
+    # LinearOperator (called by scipy with the user's operand, or with the operand of the other term of a composite) and the
+    # closures the package hands out or installs as callbacks (called by generated code with cached series elements)
+    for fa in an.funcs:
+        if modules is not None and fa.mod not in modules:
+            continue
+        mutated = [(node, txt, base) for node, txt, base, st, kind in fa.sinks
+                   if base in fa.params and base not in fa.captured and base != "self" and (fa.mod, fa.q, txt) not in EXEMPT]
+        if not mutated:
+            continue
+        cls = getattr(fa.func, "_parent", None)
+        is_slot = isinstance(cls, ast.ClassDef) and any(norm(b).split(".")[-1] == "LinearOperator" for b in cls.bases)
+        has_site = any((call_name(call) or "").split(".")[-1] == fa.func.name for _c, call, _e in an.calls)
+        if is_slot and not fa.func.name.startswith("__"):
+            node, txt, base = mutated[0]
+            rep.fail(RULE, f"{fa.mod}::{fa.q} writes into its operand `{base}` (`{txt}`)",
+                     "a LinearOperator slot is called by scipy with arrays the caller (or another term of a composite operator) still uses: "
+                     "the operator must not modify what it is applied to", repo.loc(fa.mod, node))
+        elif not is_slot and not has_site and isinstance(getattr(fa.func, "_parent", None), (ast.FunctionDef, ast.If, ast.For, ast.With, ast.Try)) \
+                and fa.q.count(".") >= 1:
+            node, txt, base = mutated[0]
+            rep.fail(RULE, f"{fa.mod}::{fa.q} writes into its argument `{base}` (`{txt}`) and is never called inside the package",
+                     "a closure handed out as a callback receives values its caller still owns (cached series elements, user arrays)", repo.loc(fa.mod, node))
     # load-bearing copies
-    _load_bearing(rep, repo)
+    if modules is None:
+        _load_bearing(rep, repo)
 
 
 def _arg_fresh(caller: FuncAnalysis, arg: ast.AST, env, an: Analyser):
@@ -784,7 +816,12 @@ def rule_value_preserving(rep: Report, repo: Repo):
                 # a collection of truth values stored as bool is exact (e.g. `np.fromiter((e is zero for e in a), dtype=bool)`)
                 pred_elems = norm(dt[0].value) == "bool" and node.args and isinstance(node.args[0], (ast.GeneratorExp, ast.ListComp)) \
                     and isinstance(node.args[0].elt, (ast.Compare, ast.BoolOp)) if dt else False
-                if dt and nm not in CONST_CONSTRUCTORS and norm(dt[0].value) != "object" and not pred_elems:
+                # promotion to a common type that includes the value's own dtype never narrows it
+                widening = bool(dt) and isinstance(dt[0].value, ast.Call) and call_name(dt[0].value) in ("np.result_type", "np.promote_types", "np.common_type") \
+                    and bool(node.args) and any(norm(a_) == f"{norm(node.args[0])}.dtype" or norm(a_) == norm(node.args[0]) for a_ in dt[0].value.args)
+                if widening:
+                    pass
+                elif dt and nm not in CONST_CONSTRUCTORS and norm(dt[0].value) != "object" and not pred_elems:
                     what = f"`dtype=` conversion in `{norm(node)[:70]}`"
                 elif dt and nm == "np.array" and norm(dt[0].value) not in ("object", "int", "bool"):
                     what = f"`dtype=` conversion in `{norm(node)[:70]}`"
@@ -971,6 +1008,87 @@ def _access_paths(e: ast.AST, root: str) -> set:
     return paths
 
 
+def _param_names(fn) -> list:
+    a = fn.args
+    return [x.arg for x in [*a.posonlyargs, *a.args, *a.kwonlyargs]] + ([a.vararg.arg] if a.vararg else []) + ([a.kwarg.arg] if a.kwarg else [])
+
+
+def _bind_all(fn: ast.FunctionDef, call: ast.Call):
+    """Like sem.bind_args, for signatures with *args / **kwargs: surplus positional arguments become a tuple, surplus keywords
+    a dict display."""
+    a = fn.args
+    if any(isinstance(x, ast.Starred) for x in call.args) or (any(k.arg is None for k in call.keywords) and not a.kwarg):
+        return None
+    pos = [x.arg for x in [*a.posonlyargs, *a.args]]
+    env = dict(zip(pos, call.args))
+    extra = call.args[len(pos):]
+    if extra and not a.vararg:
+        return None
+    kwonly = [x.arg for x in a.kwonlyargs]
+    surplus = []
+    for k in call.keywords:
+        if k.arg is None:
+            surplus.append(k)
+            continue
+        if k.arg in env:
+            return None
+        if k.arg in pos or k.arg in kwonly:
+            env[k.arg] = k.value
+        elif a.kwarg:
+            surplus.append(k)
+        else:
+            return None
+    defaults = dict(zip(pos[len(pos) - len(a.defaults):], a.defaults))
+    for x, d in zip(a.kwonlyargs, a.kw_defaults):
+        if d is not None:
+            defaults[x.arg] = d
+    for nm in pos + kwonly:
+        if nm not in env:
+            if nm not in defaults:
+                return None
+            env[nm] = defaults[nm]
+    if a.vararg:
+        env[a.vararg.arg] = ast.Tuple(elts=list(extra), ctx=ast.Load())
+    if a.kwarg:
+        env[a.kwarg.arg] = ast.Dict(keys=[ast.Constant(value=k.arg) if k.arg is not None else None for k in surplus], values=[k.value for k in surplus])
+    return env
+
+
+def _memo_verdict(K: ast.AST, V: ast.AST, varying):
+    """-> ("ok" | "missing" | "named" | "partial", detail)"""
+    NAMES = ("__name__", "__qualname__", "__module__")
+    missing, partial, named = [], [], []
+    for p_ in varying:
+        reads = _access_paths(V, p_)
+        if not reads:
+            continue
+        in_key = _access_paths(K, p_)
+        if not in_key:
+            missing.append((p_, sorted(reads)))
+        elif all(k_.split(".")[-1] in NAMES for k_ in in_key) and not all(r_.split(".")[-1] in NAMES for r_ in reads):
+            named.append((p_, sorted(reads), sorted(in_key)))
+        elif not all(any(r_ == k_ or r_.startswith(k_ + "[") or r_.startswith(k_ + ".") for k_ in in_key) for r_ in reads):
+            partial.append((p_, sorted(reads), sorted(in_key)))
+        else:
+            class _T(ast.NodeVisitor):
+                bad = False
+
+                def visit_Compare(self, node):
+                    if any(_access_paths(node, p_)):
+                        self.bad = True
+            t_ = _T()
+            t_.visit(K)
+            if t_.bad:
+                partial.append((p_, sorted(reads), ["(inside a comparison)"]))
+    if named:
+        return ("named", named[0])
+    if missing:
+        return ("missing", missing[0])
+    if partial:
+        return ("partial", partial[0])
+    return ("ok", None)
+
+
 def _closure_memos(rep: Report, repo: Repo, R: str, modules=None) -> int:
     """A dictionary created in a function F and filled by a closure G of F as `if K not in D: D[K] = V` is a memo table over the
     calls of G.  Whatever V reads from G's parameters has to be pinned by K: a parameter that V reads and K does not mention at
@@ -993,58 +1111,96 @@ def _closure_memos(rep: Report, repo: Repo, R: str, modules=None) -> int:
         # module-level tables filled by module-level functions, and tables of a function filled by its closures
         units = [(empty_dicts(tree.body), [x for x in tree.body if isinstance(x, ast.FunctionDef)])]
         for F in [x for x in ast.walk(tree) if isinstance(x, ast.FunctionDef)]:
-            units.append((empty_dicts(list(own_nodes(F))), nested_defs(F)))
+            units.append((empty_dicts(list(own_nodes(F))), [x for x in ast.walk(F) if isinstance(x, ast.FunctionDef) and x is not F]))
         for tables, fillers in units:
             if not tables:
                 continue
             for G in fillers:
-                params = [a.arg for a in [*G.args.posonlyargs, *G.args.args, *G.args.kwonlyargs]] + \
-                         ([G.args.vararg.arg] if G.args.vararg else [])
+                params = _param_names(G)
                 for D in tables:
                     for guard, key, store in memo_guards(G, D):
                         n += 1
                         K = resolved(key, env_at(guard, G))
                         V = resolved(store.value, env_at(store, G))
                         inst = f"{mod}::{qualname(G)} memo table `{D}` keyed by `{norm(K)[:60]}`"
-                        missing, partial, named = [], [], []
-                        NAMES = ("__name__", "__qualname__", "__module__")
-                        for p_ in params:
-                            reads = _access_paths(V, p_)
-                            if not reads:
-                                continue
-                            in_key = _access_paths(K, p_)
-                            if not in_key:
-                                missing.append((p_, sorted(reads)))
-                            elif all(k_.split(".")[-1] in NAMES for k_ in in_key) and not all(r_.split(".")[-1] in NAMES for r_ in reads):
-                                named.append((p_, sorted(reads), sorted(in_key)))
-                            elif not all(any(r_ == k_ or r_.startswith(k_ + "[") or r_.startswith(k_ + ".") for k_ in in_key) for r_ in reads):
-                                partial.append((p_, sorted(reads), sorted(in_key)))
+                        # functions between the table's owner and the filler: their parameters vary between fills too, and what
+                        # they are is known only at their call sites
+                        chain = []
+                        p_ = getattr(G, "_parent", None)
+                        while p_ is not None and not (isinstance(p_, ast.FunctionDef) and any(
+                                isinstance(x, (ast.Assign, ast.AnnAssign)) and norm(x.targets[0] if isinstance(x, ast.Assign) else x.target) == D
+                                for x in own_nodes(p_))) and not isinstance(p_, ast.Module):
+                            if isinstance(p_, ast.FunctionDef):
+                                chain.append(p_)
+                            p_ = getattr(p_, "_parent", None)
+                        owner = p_
+                        inter = [m_ for m_ in chain if any(_access_paths(V, q) or _access_paths(K, q) for q in _param_names(m_))]
+                        cases = [(K, V, params, repo.loc(mod, store), "")]
+                        if inter:
+                            if len(inter) > 1 or owner is None:
+                                raise AnalysisError(R, f"{inst}: key / value depend on the parameters of several enclosing functions")
+                            M = inter[0]
+                            sites = [c for c in ast.walk(owner) if isinstance(c, ast.Call) and isinstance(c.func, ast.Name) and c.func.id == M.name
+                                     and not any(c is x for x in ast.walk(M))]
+                            if not sites:
+                                raise AnalysisError(R, f"{inst}: no call of `{M.name}` found")
+                            cases = []
+                            for c in sites:
+                                bnd = _bind_all(M, c)
+                                if bnd is None:
+                                    raise AnalysisError(R, f"{inst}: the call `{norm(c)[:60]}` cannot be bound")
+                                H = c
+                                while H is not None and not isinstance(H, ast.FunctionDef):
+                                    H = getattr(H, "_parent", None)
+                                env_c = env_at(c, H) if H is not None else {}
+                                K2, V2 = resolved(resolved(K, bnd), env_c), resolved(resolved(V, bnd), env_c)
+                                hp = _param_names(H) if H is not None else []
+                                if H is not None and hp:
+                                    # the parameters of the function that makes the call are pinned if the key contains parameters whose
+                                    # arguments differ between all call sites of that function (they identify the call site)
+                                    hsites = [c2 for c2 in ast.walk(owner) if isinstance(c2, ast.Call) and isinstance(c2.func, ast.Name) and c2.func.id == H.name
+                                              and not any(c2 is x for x in ast.walk(H))]
+                                    bound = [_bind_all(H, c2) for c2 in hsites]
+                                    in_key = [q_ for q_ in hp if q_ in _access_paths(K2, q_)]
+                                    if hsites and None not in bound and in_key:
+                                        ids = [tuple(norm(b_[q_]) for q_ in in_key) for b_ in bound]
+                                        consts = all(isinstance(b_[q_], ast.Constant) for b_ in bound for q_ in in_key)
+                                        if consts and len(set(ids)) == len(ids):
+                                            hp = []
+                                varying = list(params) + hp
+                                q = getattr(c, "_parent", None)
+                                while q is not None and q is not owner:
+                                    if isinstance(q, ast.For):
+                                        tnames = [x.id for x in ast.walk(q.target) if isinstance(x, ast.Name)]
+                                        # `for k, (...) in enumerate(...)`: the counter identifies the turn, and with it all targets
+                                        counter = q.target.elts[0].id if (isinstance(q.iter, ast.Call) and call_name(q.iter) == "enumerate"
+                                                                          and isinstance(q.target, ast.Tuple) and isinstance(q.target.elts[0], ast.Name)) else None
+                                        if counter is not None and counter in _access_paths(K2, counter):
+                                            tnames = []
+                                        varying += tnames
+                                    if isinstance(q, (ast.ListComp, ast.GeneratorExp, ast.SetComp, ast.DictComp)):
+                                        varying += [x.id for g_ in q.generators for x in ast.walk(g_.target) if isinstance(x, ast.Name)]
+                                    q = getattr(q, "_parent", None)
+                                cases.append((K2, V2, list(dict.fromkeys(varying)), repo.loc(mod, c), f" (as called at line {c.lineno})"))
+                        verdicts = [_memo_verdict(K_, V_, vary_) + (where_, note_) for K_, V_, vary_, where_, note_ in cases]
+                        bad = [v_ for v_ in verdicts if v_[0] in ("named", "missing")]
+                        und = [v_ for v_ in verdicts if v_[0] == "partial"]
+                        if bad:
+                            kind, detail, where_, note_ = bad[0]
+                            if kind == "named":
+                                rep.fail(R, f"{inst}: the cached value is computed from `{detail[0]}` itself ({', '.join(detail[1])[:50]}), the key holds only its name "
+                                            f"({', '.join(detail[2])[:70]})",
+                                         "two different objects with the same module and (qualified) name share one entry: the second silently gets what was "
+                                         "computed from the first", where_)
                             else:
-                                # the paths are in the key: they must be there as values, not only inside a test
-                                class _T(ast.NodeVisitor):
-                                    bad = False
-
-                                    def visit_Compare(self, node):
-                                        if any(_access_paths(node, p_)):
-                                            self.bad = True
-                                t_ = _T()
-                                t_.visit(K)
-                                if t_.bad:
-                                    partial.append((p_, sorted(reads), ["(inside a comparison)"]))
-                        if named:
-                            rep.fail(R, f"{inst}: the cached value is computed from `{named[0][0]}` itself ({', '.join(named[0][1])[:50]}), the key holds only its name "
-                                        f"({', '.join(named[0][2])[:70]})",
-                                     "two different objects with the same module and (qualified) name share one entry: the second silently gets what was "
-                                     "computed from the first", repo.loc(mod, store))
-                        elif missing:
-                            rep.fail(R, f"{inst}: the cached value reads parameter `{missing[0][0]}` ({', '.join(missing[0][1])[:60]}), which the key does not mention",
-                                     "two calls that differ in that parameter share one entry: the second silently gets what was computed for the first",
-                                     repo.loc(mod, store))
-                        elif partial:
-                            raise AnalysisError(R, f"{inst}: cannot decide whether the key determines what the cached value reads from `{partial[0][0]}` "
-                                                   f"(value reads {partial[0][1]}, key has {partial[0][2]})")
+                                rep.fail(R, f"{inst}{note_}: the cached value reads `{detail[0]}` ({', '.join(detail[1])[:60]}), which the key does not mention",
+                                         "two fills that differ in it share one entry: the second silently gets what was computed for the first", where_)
+                        elif und:
+                            _k, detail, _w, note_ = und[0]
+                            raise AnalysisError(R, f"{inst}{note_}: cannot decide whether the key determines what the cached value reads from `{detail[0]}` "
+                                                   f"(value reads {detail[1]}, key has {detail[2]})")
                         else:
-                            rep.ok(R, inst, "every parameter the cached value reads is part of the key", repo.loc(mod, guard))
+                            rep.ok(R, inst, "everything the cached value reads that varies between fills is part of the key", repo.loc(mod, guard))
     return n
 
 
